@@ -5,6 +5,7 @@ import (
 	"context"
 	"fmt"
 	"math/rand"
+	"runtime"
 	"strings"
 	"sync"
 	"sync/atomic"
@@ -41,6 +42,20 @@ func plan(tier string, seed int64) []driver.Case {
 		for _, what := range []string{"subscription", "subscriber"} {
 			cases = append(cases, driver.Case{ID: fmt.Sprintf("sub/race/%s/%d", what, i), Race: tier == "thorough" && i%2 == 0,
 				P: map[string]string{"kind": "subrace", "what": what, "seed": fmt.Sprint(rng.Int63()), "k": fmt.Sprint(2 + rng.Intn(7)), "n": fmt.Sprint(1 + rng.Intn(6)), "yield": fmt.Sprint(rng.Intn(3)), "concurrent": "1"}})
+		}
+	}
+	// spin-barrier rounds: Add against the disposal, aligned to within nanoseconds
+	nSpin, spinRounds := 2, 20000
+	spinRng := rand.New(rand.NewSource(seed ^ 0x5bd1e995))
+	if tier == "thorough" {
+		nSpin, spinRounds = 12, 100000
+	}
+	for i := 0; i < nSpin; i++ {
+		for _, via := range []string{"unsubscribe", "complete", "error"} {
+			for adders := 1; adders <= 3; adders += 2 {
+				cases = append(cases, driver.Case{ID: fmt.Sprintf("sub/spin/%s/a%d/%d", via, adders, i), Solo: true,
+					P: map[string]string{"kind": "subspin", "via": via, "adders": fmt.Sprint(adders), "rounds": fmt.Sprint(spinRounds), "seed": fmt.Sprint(spinRng.Int63())}})
+			}
 		}
 	}
 	// (b) operator level, puppet-driven
@@ -283,6 +298,130 @@ func runSubRace(c driver.Case) driver.Result {
 	res.Nontrivial = true
 	res.Sig = c.Get("what") + strings.Join(ops, ",")
 	res.Sample = map[string]any{"racing_ops": ops, "teardowns": n}
+	return res
+}
+
+// runSubSpin races Add against the call that disposes the subscription, thousands of times, with
+// the callers released by a spin barrier (a channel wake-up is far too coarse to land Add inside
+// the few instructions in which a disposal is in progress) and a swept offset between them. Once
+// every caller has returned, each added teardown must have run exactly once - whether Add came
+// before, during or after the disposal.
+func runSubSpin(c driver.Case) driver.Result {
+	var sd int64
+	fmt.Sscan(c.Get("seed"), &sd)
+	rng := rand.New(rand.NewSource(sd))
+	via, adders, rounds := c.Get("via"), c.Int("adders"), c.Int("rounds")
+	res := driver.Result{Verdict: driver.Held}
+	type slot struct {
+		sub    ro.Subscription
+		obs    ro.Subscriber[int]
+		counts []atomic.Int64
+		delay  []int // spin iterations before each caller acts
+	}
+	var cur atomic.Pointer[slot]
+	var gate, doneCnt atomic.Int64
+	gate.Store(-1)
+	k := adders + 1
+	var stop atomic.Bool
+	var wg sync.WaitGroup
+	spin := func(n int) {
+		for i := 0; i < n; i++ {
+			_ = stop.Load()
+		}
+	}
+	for g := 0; g < k; g++ {
+		g := g
+		wg.Add(1)
+		go func() {
+			defer wg.Done()
+			for round := int64(0); round < int64(rounds); round++ {
+				for i := 0; gate.Load() < round; i++ {
+					if stop.Load() {
+						return
+					}
+					if i%256 == 255 {
+						runtime.Gosched()
+					}
+				}
+				s := cur.Load()
+				spin(s.delay[g])
+				func() {
+					defer func() { recover() }()
+					if g == 0 {
+						switch via {
+						case "unsubscribe":
+							s.sub.Unsubscribe()
+						case "complete":
+							s.obs.Complete()
+						case "error":
+							s.obs.Error(src.ErrSrc)
+						}
+					} else {
+						s.sub.Add(func() { s.counts[g-1].Add(1) })
+					}
+				}()
+				doneCnt.Add(1)
+			}
+		}()
+	}
+	defer func() { stop.Store(true); wg.Wait() }()
+	lost, dup := 0, 0
+	first := ""
+	r := rec.New("subspin")
+	r.Silent = true
+	deadline := time.Now().Add(120 * time.Second) // watchdog only: firing is inconclusive
+	for round := 0; round < rounds; round++ {
+		s := &slot{counts: make([]atomic.Int64, adders), delay: make([]int, k)}
+		if via == "unsubscribe" {
+			s.sub = ro.NewSubscription(nil)
+		} else {
+			s.obs = ro.NewSubscriber[int](rec.Raw[int](r))
+			s.sub = s.obs
+		}
+		for g := range s.delay {
+			s.delay[g] = rng.Intn(40)
+		}
+		cur.Store(s)
+		doneCnt.Store(0)
+		gate.Store(int64(round))
+		for i := 0; doneCnt.Load() < int64(k); i++ {
+			if i%256 == 255 {
+				runtime.Gosched()
+				if time.Now().After(deadline) {
+					res.Verdict, res.Key, res.Dirty = driver.Inconclusive, "spin-rounds-not-finished", true
+					res.Msg = fmt.Sprintf("round %d of %d not finished within the watchdog", round, rounds)
+					return res
+				}
+			}
+		}
+		for a := 0; a < adders; a++ {
+			switch n := s.counts[a].Load(); {
+			case n == 0:
+				lost++
+				if first == "" {
+					first = fmt.Sprintf("round %d: the teardown given to Add by caller %d never ran although Add and the %s call have both returned and IsClosed()=%v", round, a, via, s.sub.IsClosed())
+				}
+			case n > 1:
+				dup++
+				if first == "" {
+					first = fmt.Sprintf("round %d: the teardown given to Add by caller %d ran %d times", round, a, n)
+				}
+			}
+		}
+		if !s.sub.IsClosed() {
+			res.Verdict, res.Key = driver.Violated, "C03/subscription/not-closed-after-"+via
+			res.Msg = fmt.Sprintf("round %d: subscription reports open after %s returned", round, via)
+			return res
+		}
+	}
+	res.Events = int64(rounds * adders)
+	res.Nontrivial = true
+	res.Sig = fmt.Sprintf("spin/%s/a%d", via, adders)
+	res.Sample = map[string]any{"rounds": rounds, "adders_per_round": adders, "disposed_via": via, "teardowns_lost": lost, "teardowns_duplicated": dup}
+	if lost+dup > 0 {
+		res.Verdict, res.Key = driver.Violated, "C03/subscription/teardown-count-when-add-races-"+via
+		res.Msg = fmt.Sprintf("%d rounds of %d Add call(s) racing %s: %d teardowns never ran, %d ran more than once; first: %s", rounds, adders, via, lost, dup, first)
+	}
 	return res
 }
 
@@ -703,6 +842,8 @@ func runCase(c driver.Case) driver.Result {
 		return runSubPanic(c)
 	case "subrace":
 		return runSubRace(c)
+	case "subspin":
+		return runSubSpin(c)
 	case "sync":
 		return runSync(c)
 	case "creation":
